@@ -65,6 +65,7 @@ PROPS = {
             {'engine': 'verus', 'name': 'batcher', 'tier': 'quick', 'role': 'enqueue flushes on full batch / expired delay; view independent of batch mode'},
             {'engine': 'verus', 'name': 'end_next', 'tier': 'quick', 'role': 'FlushBatch / FlushAndRestart flush every batcher; Terminate ends every batcher'},
             {'engine': 'verus', 'name': 'start_next', 'tier': 'quick', 'exclude_obligations': ['start.progress_on_replica_end'], 'role': 'a receive timeout is turned into FlushBatch (and only then)'},
+            {'engine': 'verus', 'name': 'channel_source', 'tier': 'quick', 'role': 'ChannelSource::next: FlushBatch before every blocking wait; the idle budget restarts after every item'},
         ],
         'explanation': 'no-withholding safety: after End::next returns FlushBatch or FlushAndRestart no batcher has pending elements; adaptive/fixed batchers '
                        'flush when full or when the delay expired (clock = any value); the delivered sequence is the same for every batch mode. '
@@ -81,6 +82,7 @@ PROPS = {
             {'engine': 'verus', 'name': 'fold', 'tier': 'quick', 'role': 'Fold::next: result before the end marker, reset at FlushAndRestart, Terminate sticky'},
             {'engine': 'verus', 'name': 'event_time_v', 'tier': 'quick', 'exclude_obligations': ['process.early_element_not_dropped'], 'role': 'event-time windows: everything fires at FlushAndRestart, nothing carried over'},
             {'engine': 'verus', 'name': 'count_window', 'tier': 'quick', 'role': 'count windows: slots cleared at FlushAndRestart/Terminate'},
+            {'engine': 'verus', 'name': 'channel_source', 'tier': 'quick', 'role': 'ChannelSource::next: one FlushAndRestart when the channel closes, then Terminate forever'},
         ],
         'explanation': 'Verus proof of the per-call contract of Start::next (any number of upstream replicas, any batches): FlushAndRestart is returned exactly when every '
                        'upstream FlushAndRestart of the iteration was consumed (and the per-iteration state restarts), Terminate exactly when every upstream Terminate was consumed, '
